@@ -204,9 +204,9 @@ func (g *gctx) value(depth int, constOnly bool) string {
 	case k < 3:
 		return fmt.Sprint(r.Intn(20) - 5)
 	case k == 3:
-		return r.Pick([]string{"9007199254740992", "-9223372036854775808", "9223372036854775807", "9223372036854775808", "99999999999999999999999"})
+		return r.Pick([]string{"9007199254740992", "-9223372036854775808", "9223372036854775807", "7", "7", "7", "9223372036854775808", "99999999999999999999999"})
 	case k == 4:
-		return r.Pick([]string{"1.5", "2.0", "1e3", "-0.25", "1e999", "1.0"})
+		return r.Pick([]string{"1.5", "2.0", "1e3", "-0.25", "1e999", "1.0", "7.0", "0.5"})
 	case k < 7:
 		return r.Pick([]string{`"s"`, `""`, `"a b"`, `"q\"uote"`, `"t\\n"`})
 	case k == 7:
@@ -240,10 +240,15 @@ func (g *gctx) args() string {
 	if r.Chance(70) {
 		return ""
 	}
+	names := []string{"x", "s", "in", "l"}
 	n := 1 + r.Intn(2)
 	xs := make([]string, n)
 	for i := range xs {
-		xs[i] = r.Pick([]string{"x", "s", "x", "in"}) + ": " + g.value(2, false)
+		k := r.Intn(len(names))
+		xs[i] = names[k] + ": " + g.value(2, false)
+		if !r.Chance(8) { // mostly distinct argument names
+			names = append(names[:k:k], names[k+1:]...)
+		}
 	}
 	return "(" + strings.Join(xs, ", ") + ")"
 }
@@ -274,11 +279,17 @@ func (g *gctx) selset(depth int) string {
 			xs = append(xs, f)
 		case k < 75:
 			name := "Unknown"
-			if len(g.frags) > 0 && r.Chance(92) {
+			if len(g.frags) > 0 && r.Chance(97) {
 				name = r.Pick(g.frags)
+			} else if !r.Chance(15) {
+				name = ""
+			}
+			if name == "" {
+				xs = append(xs, r.Pick(gFieldNames))
+				continue
 			}
 			xs = append(xs, "..."+name+g.directives())
-		case k < 93:
+		case k < 98:
 			xs = append(xs, "... on "+r.Pick([]string{"Query", "Obj", "Other", "Nope"})+g.directives()+" "+g.selset(depth-1))
 		default:
 			xs = append(xs, "..."+g.directives()+" "+g.selset(depth-1))
@@ -321,7 +332,7 @@ func genGrammar(r *vh.Rng) Case {
 				for i := range vs {
 					t := r.Pick([]string{"Int", "Int!", "[Int]", "[Int!]!", "String", "Boolean"})
 					vs[i] = "$" + r.Pick([]string{"x", "s", "b"}) + ": " + t
-					if r.Chance(50) {
+					if r.Chance(50) && (!strings.HasSuffix(t, "!") || r.Chance(15)) {
 						vs[i] += " = " + g.value(2, true)
 					}
 				}
@@ -329,20 +340,27 @@ func genGrammar(r *vh.Rng) Case {
 			}
 			s += g.directives()
 		}
-		return s + " " + g.selset(2+r.Intn(2))
+		body := g.selset(2 + r.Intn(2))
+		// most fragments are used at least once
+		for _, f := range g.frags {
+			if r.Chance(80) && !strings.Contains(body, "..."+f) {
+				body = body[:len(body)-1] + "..." + f + " }"
+			}
+		}
+		return s + " " + body
 	}
 	defs = append(defs, op())
-	if r.Chance(6) {
+	if r.Chance(3) {
 		defs = append(defs, op())
 	}
-	if r.Chance(4) {
+	if r.Chance(2) {
 		defs = defs[:0]
 	}
 	for i := 0; i < nf; i++ {
 		// fragments may spread each other (cycles possible) – the name list is already complete
 		defs = append(defs, fmt.Sprintf("fragment %s on %s%s %s", g.frags[i], r.Pick([]string{"Query", "Obj"}), g.directives(), g.selset(1+r.Intn(2))))
 	}
-	if r.Chance(8) {
+	if r.Chance(4) {
 		defs = append(defs, r.Pick(otherDefs))
 	}
 	// shuffle definitions
